@@ -97,7 +97,12 @@ def esComputeWrites (cfg : Cfg) (st : Study) (id : Nat) (es : EsOutcome) : List 
   | .raises => if cfg.esFailureFinishesOp then [.putEsOp { trialId := id, active := false, shouldStop := false }] else []
   | .decisions ds delta =>
     let r := st.updateMetadata cfg delta
-    if !r.1 then [.metadata delta] else .metadata delta :: decisionWrites r.2 ds
+    if !r.1 then .metadata delta :: (if cfg.esAnswerFinishesOp then [.putEsOp (esDone id)] else [])
+    else
+      .metadata delta :: decisionWrites r.2 ds ++
+        (match esOpOf (applyDecisions r.2 ds) id with
+         | some o => if o.active && cfg.esAnswerFinishesOp then [.putEsOp (esDone id)] else []
+         | none => [])
 
 /-- the datastore writes of `CheckTrialEarlyStoppingState` (after the study check) -/
 def esWrites (cfg : Cfg) (st : Study) (id : Nat) (es : EsOutcome) : List Write :=
